@@ -473,6 +473,34 @@ def var_records(run, fc, box, key, it):
                   "hvcC NAL arrays are not [VPS(32), SPS(33), PPS(34)] with matching length prefixes: %s" % ", ".join(L.show(s) for s in tail)[:300])
     elif fc == b"esds":
         esds_check(run, segs, key)
+    elif fc == b"dOps":
+        # Opus-in-ISOBMFF 4.3.2: StreamCount, CoupledCount and ChannelMapping[OutputChannelCount] follow iff ChannelMappingFamily != 0
+        view, rest = B.byte_view(segs)
+        fam = B.field_value(view, 10, 1)
+        cnt = B.field_value(view, 1, 1)
+        ok = False
+        why = "ChannelMappingFamily is not a single byte at offset 10"
+        if fam[0] in ("expr", "const") and len(view) == 11:
+            tail = rest or []
+            if fam[0] == "const":
+                ok = (fam[1] == b"\x00" and not tail) or (fam[1] != b"\x00" and len(tail) >= 1 and tail[0][0] != "alt")
+                why = "constant mapping family %s with tail %s" % (fam[1].hex(), [L.show(t)[:40] for t in tail])
+            else:
+                fe = fam[1][1]
+                good_alt = len(tail) == 1 and tail[0][0] == "alt" and tail[0][1] == ("bin", "Ne", fe, ("lit", 0)) and tail[0][2] and not tail[0][3]
+                w_ok = False
+                if good_alt:
+                    tw = [t for t in tail[0][2]]
+                    fixed = sum(L.seg_width(t).const for t in tw if t[0] in ("c", "u8") and L.seg_width(t).is_const())
+                    reps = [t for t in tw if t[0] == "rep"]
+                    w_ok = fixed == 2 and len(reps) == 1 and L.seg_width(("rep",) + tuple(reps[0][1:3]) + ([("u8", ("lit", 0))],)) is not None
+                    if reps and cnt[0] == "expr":
+                        base = reps[0][1]
+                        w_ok = w_ok and base[0] == "range" and base[1] == ("lit", 0) and L.strip_ids(L.freeze(base[2])) == L.strip_ids(L.freeze(cnt[1][1]))
+                ok = good_alt and w_ok
+                why = "the bytes after ChannelMappingFamily are %s" % ", ".join(L.show(t)[:100] for t in tail)
+        run.check(ok, "R3", key + " channel mapping table", "StreamCount, CoupledCount, ChannelMapping[OutputChannelCount] present iff ChannelMappingFamily != 0",
+                  "dOps channel mapping table is not conditional on `ChannelMappingFamily != 0` with one mapping byte per output channel: " + why)
     elif fc == b"av1C":
         tail = _after(segs, 4)
         good = tail is not None and len(tail) == 1 and tail[0][0] == "blob" and "sequence_header" in " ".join(L.field_names(tail[0][1]))
